@@ -381,6 +381,7 @@ class GcfRel(CurveDriver):
         F(range_type="relative cp", range_x=[-6e-7, 3e-7]),
         F(range_type="absolute"),
         F(range_x=[0, 0]),
+        F(range_x=[-4e-9, 4e-9]),                  # too few points
         F(params_initial={"__params__": "para_A"}),
         ["E", "gcf_k", 0.5],
         ["M"],
